@@ -43,11 +43,10 @@ func (p *ConfigProp[T]) Overwrite(value T) {
 	p.onChange.Fire(value)
 }
 
-// Stages the new value, keeping the old. The change is not committed until CommitStaged is called.
+// Stages the new value, keeping the old. The change is not committed until CommitStaged is called,
+// and nobody is told about it until NotifyCommitted is called.
 func (p *ConfigProp[T]) Stage(newValue T) {
 	commit, _ := p.value.Load()
-
-	oldVal := commit.ref().Original()
 
 	// Copy the old Overwritable to keep any command-line overwrites.
 	overwritable := commit.Value()
@@ -55,18 +54,47 @@ func (p *ConfigProp[T]) Stage(newValue T) {
 	commit.Stage(overwritable)
 
 	p.value.Store(commit)
-
-	if p.requiresRestart && (oldVal != newValue) {
-		setRestartNeeded()
-	}
-
-	p.onChange.Fire(newValue)
 }
 
 func (p *ConfigProp[T]) CommitStaged() {
 	commit, _ := p.value.Load()
 	commit.Commit()
 	p.value.Store(commit)
+}
+
+// Drops a staged value that will not be committed.
+func (p *ConfigProp[T]) DiscardStaged() {
+	commit, _ := p.value.Load()
+	commit.Uncommit()
+	p.value.Store(commit)
+}
+
+// Undoes the last CommitStaged: the update it belonged to was rejected.
+func (p *ConfigProp[T]) RollbackCommitted() {
+	commit, _ := p.value.Load()
+	commit.Rollback()
+	p.value.Store(commit)
+}
+
+// Makes the last CommitStaged final and tells the listeners about it. Listeners receive the
+// effective value (a command-line overwrite wins over the configured value) and only if it changed.
+func (p *ConfigProp[T]) NotifyCommitted() {
+	commit, _ := p.value.Load()
+	previous, hadPrevious := commit.previousValue.Get()
+	commit.Finalize()
+	p.value.Store(commit)
+	if !hadPrevious {
+		return
+	}
+
+	current := commit.ref()
+	if p.requiresRestart && (previous.Original() != current.Original()) {
+		setRestartNeeded()
+	}
+
+	if previous.Get() != current.Get() {
+		p.onChange.Fire(current.Get())
+	}
 }
 
 func (p *ConfigProp[T]) String() string {
